@@ -4,7 +4,7 @@ import random
 
 from .. import gen, harness, mon, ref, runfam
 from ..core import Check, derive_seed
-from ..model import Expr, In, Ref, Program, Step
+from ..model import Expr, In, Ref, Program, Step, OrDisabled
 
 
 def base_program(rng, force=None):
@@ -265,6 +265,22 @@ def run(check):
         values = ["east", "west", "", "north,south"][: 3 + k % 2]
         case = {"id": "c14-v%04d" % k, "files": prog.files(), "scripts": gen.make_scripts([a], {}), "runs": [{"input": {"tag": "T%d" % q}, "tag": "r%d" % q, "setenv": {var: v}} for q, v in enumerate(values)]}
         envcases.append((case, values))
+    # the caller overwrites everything a run returned (it owns it) before the next run of the same prepared workflow: literal lists
+    # and maps of the output, whole stage results (enabling.resolved, starting.started), the echoed input - the next run returns
+    # the untouched values, and a step enabled by another step's enabling result still runs
+    poisoned = []
+    for k in range(check.pick(6, 24)):
+        first = gen.plugin_step("first", Expr(In("tag")))
+        second = gen.plugin_step("second", gen.tagref("first"), enabled=Expr(Ref("first", "enabling", "resolved", "enabled")))
+        outs = {"success": {"tags": ["alpha", "beta"], "consts": {"k": "v", "l": [1, 2]}, "en": Expr(Ref("first", "enabling", "resolved")), "st": Expr(Ref("first", "starting", "started")),
+                            "second": gen.tagref("second"), "whole": Expr(Ref("first", "outputs", "success")), "inp": Expr(In())}}
+        if k % 2:
+            outs["success"]["dis"] = OrDisabled(Ref("second", "outputs", "success"))
+        prog = Program([first, second], outs, gen.BASE_INPUT)
+        nruns = 3 + k % 2
+        case = {"id": "c14-z%04d" % k, "files": prog.files(), "scripts": gen.make_scripts([first, second], {}), "runs": [{"input": {"tag": "Z%d_%d" % (k, q)}, "tag": "r%d" % q} for q in range(nruns)],
+                "extra": {"poison_results": True}}
+        poisoned.append((case, nruns, k))
     stats = {"runs_checked": 0, "overlapped_groups": 0, "cancelled_runs": 0, "runs_after_failed_or_cancelled": 0, "max_overlap": 0}
     with harness.Runner() as rn:
         if not rn.hang_oracle_works():
@@ -274,6 +290,31 @@ def run(check):
         cout = rn.run_cases([c for c, _d in constrained], per_case_timeout=120)
         sout = rn.run_cases([c for c, _d in shaped], per_case_timeout=120)
         vout = rn.run_cases([c for c, _v in envcases], per_case_timeout=120)
+        zout = rn.run_cases([c for c, _n, _k in poisoned], per_case_timeout=120)
+    for case, nruns, k in poisoned:
+        o = zout.get(case["id"], {})
+        check.count()
+        res = o.get("result") or {}
+        runs = res.get("runs") or []
+        if "death" in o or res.get("prepare_err") or res.get("parse_err") or len(runs) != nruns:
+            check.inconclusive_case(case["id"], str(o.get("death", {}).get("key") or res.get("prepare_err") or "runs missing"))
+            continue
+        for q, r in enumerate(runs):
+            data = ref.denum(r.get("data")) or {}
+            tag = "Z%d_%d" % (k, q)
+            bad = []
+            if r.get("out_id") != "success":
+                bad.append("returned %r / %s" % (r.get("out_id"), (r.get("err") or "")[:150]))
+            else:
+                if "POISONED" in json.dumps(data) or "poisoned" in json.dumps(data):
+                    bad.append("the data carries values the caller wrote into the result of an earlier run")
+                if data.get("tags") != ["alpha", "beta"] or data.get("consts") != {"k": "v", "l": ["1", "2"]} or data.get("en") != {"enabled": True} or data.get("second") != "second(first(%s))" % tag or (data.get("inp") or {}).get("tag") != tag:
+                    bad.append("values differ from those of a first run")
+            if bad:
+                check.report("runs@caller-overwrote-earlier-result", "results overwritten by the caller between runs of one prepared workflow: run %d: %s; data %r" % (q, "; ".join(bad), r.get("data")), {"case": case})
+                break
+        stats["runs_after_overwritten_results"] = stats.get("runs_after_overwritten_results", 0) + nruns
+        check.nontrivial("poisoned|%d|%d" % (nruns, k % 2))
     for case, values in envcases:
         o = vout.get(case["id"], {})
         check.count()
